@@ -151,6 +151,78 @@ func (a *Adv) MembershipProbes() int {
 				}
 			}
 		}
+		// position and proof of a contract parent (revision or resolution of any kind), in particular of a
+		// contract that an earlier transaction of the same block has already revised (label suffix
+		// "/after-in-block-revision"): the carried parent must be the genuine accumulator element every time
+		{
+			revisedEarlier := map[types.FileContractID]bool{}
+			for _, prev := range a.Honest.V2.Transactions[:ti] {
+				for _, r := range prev.FileContractRevisions {
+					revisedEarlier[r.Parent.ID] = true
+				}
+			}
+			type parentRef struct {
+				kind string
+				get  func(x *types.V2Transaction) *types.V2FileContractElement
+			}
+			var refs []parentRef
+			if len(orig.FileContractRevisions) > 0 {
+				refs = append(refs, parentRef{"contract-revision", func(x *types.V2Transaction) *types.V2FileContractElement { return &x.FileContractRevisions[0].Parent }})
+			}
+			if len(orig.FileContractResolutions) > 0 {
+				refs = append(refs, parentRef{"contract-resolution", func(x *types.V2Transaction) *types.V2FileContractElement { return &x.FileContractResolutions[0].Parent }})
+			}
+			for _, ref := range refs {
+				cur := ref.get(&orig)
+				if cur.StateElement.LeafIndex == types.UnassignedLeafIndex {
+					continue // created in this block: no accumulator position to alter
+				}
+				suffix := ""
+				if revisedEarlier[cur.ID] {
+					suffix = "/after-in-block-revision"
+				}
+				for _, name := range []string{"leaf-index^1", "leaf-index^2^35", "proof-bitflip", "proof-truncated", "other-elements-position", "renter-address"} {
+					blk := CloneBlock(a.Honest)
+					x := &blk.V2.Transactions[ti]
+					pe := ref.get(x)
+					switch name {
+					case "leaf-index^1":
+						pe.StateElement.LeafIndex ^= 1
+					case "leaf-index^2^35":
+						pe.StateElement.LeafIndex ^= 1 << 35
+					case "proof-bitflip":
+						if len(pe.StateElement.MerkleProof) == 0 {
+							continue
+						}
+						pe.StateElement.MerkleProof[len(pe.StateElement.MerkleProof)-1][7] ^= 0x20
+					case "proof-truncated":
+						if len(pe.StateElement.MerkleProof) == 0 {
+							continue
+						}
+						pe.StateElement.MerkleProof = pe.StateElement.MerkleProof[:len(pe.StateElement.MerkleProof)-1]
+					case "other-elements-position":
+						found := false
+						for _, e := range a.G.C.Store.SortedSC() {
+							if e.StateElement.LeafIndex != pe.StateElement.LeafIndex {
+								pe.StateElement = e.StateElement.Copy()
+								found = true
+								break
+							}
+						}
+						if !found {
+							continue
+						}
+					case "renter-address":
+						// a field no revision/resolution rule constrains: only membership can refuse it
+						pe.V2FileContract.RenterOutput.Address = otherAddr(pe.V2FileContract.RenterOutput.Address)
+					}
+					SignV2(a.CS, x, SignOpts{})
+					if a.emit(blk, "v2-parent/"+ref.kind+"/"+name+suffix, "reject", nil, nil) {
+						n++
+					}
+				}
+			}
+		}
 		for ri := range orig.FileContractResolutions {
 			if sp, ok := orig.FileContractResolutions[ri].Resolution.(*types.V2StorageProof); ok {
 				for _, name := range []string{"chain-index-id", "chain-index-leaf", "chain-index-proof"} {
